@@ -52,10 +52,10 @@ RUNTIME_ALL = ["U6", "U6b", "U7", "U8"] + U9 + U16 + ["U17", "U23", "U24"]
 PROPS = {
     "C01": {"units": ["U2", "U3", "U4", "U5", "U15", "U20", "U21", "U21b"] + RUNTIME_ALL},
     "C02": {"units": ["U3", "U4", "U5", "U15", "U20", "U22"] + RUNTIME_ALL, "safety_units": ["U6", "U7"]},
-    "C03": {"units": ["U3", "U4", "U15", "U19", "U20", "U22"] + RUNTIME_ALL},
+    "C03": {"units": ["U3", "U4", "U5", "U15", "U19", "U20", "U22"] + RUNTIME_ALL},
     "C14": {"units": ["U4", "U11", "U20", "U22"], "safety_units": ["U11"]},
     "C15": {"units": RUNTIME_ALL + ["U10", "U10b", "U18", "U19"]},
-    "C04": {"units": ["U3", "U4", "U15", "U20", "U22", "U10b", "U18"] + RUNTIME_ALL, "safety_units": ["U6", "U6b", "U7", "U20", "U22", "U10b", "U18"] + U9 + U16},
+    "C04": {"units": ["U3", "U4", "U5", "U15", "U20", "U22", "U10b", "U18"] + RUNTIME_ALL, "safety_units": ["U6", "U6b", "U7", "U20", "U22", "U10b", "U18"] + U9 + U16},
     "C05": {"units": ["U3", "U4", "U6", "U6b", "U8", "U22"], "safety_units": ["U6", "U8"]},
     "C06": {"units": ["U2", "U3", "U4", "U5", "U6", "U6b", "U7", "U8", "U15", "U21", "U21b", "U24"]},
     "C07": {"units": ["U10b", "U18"] + RUNTIME_ALL},
